@@ -186,6 +186,96 @@ def flavour_cases(chk):
     return cases
 
 
+def nested_requests():
+    """requests whose attribute values are themselves containers (for the level-"nested" collaborators)"""
+    def rq(sid, roles, sattrs, action, rtype, rid, rattrs, ctx):
+        return {"subject": {"id": sid, "roles": roles, "attrs": sattrs}, "action": action,
+                "resource": {"type": rtype, "id": rid, "attrs": rattrs}, "context": ctx}
+    return [
+        rq("alice", ["lead"], {"dept": "eng", "level": 5, "tags": ["vip", "x"], "profile": {"email": "a@corp.example"}},
+           "read", "doc", "1", {"dept": "eng", "parent": "folder:f1", "meta": {"owner": "alice"}},
+           {"ip": "10.0.0.1", "mfa": True, "auth_level": 3, "tos_accepted": True,
+            "headers": {"authorization": "Bearer abc"}, "_rebac": {"tenant": {"id": "t1"}}}),
+        rq("carol", ["editor"], {"dept": "ops", "level": 1, "tags": ["vip"], "profile": {"email": "c@other.example"}},
+           "read", "doc", "2", {"dept": "ops", "meta": {"owner": "carol"}},
+           {"ip": "10.0.0.2", "mfa": False, "auth_level": 1, "headers": {"authorization": "Basic xyz"},
+            "_rebac": {"tenant": {"id": "t2"}}}),
+    ]
+
+
+HOSTILE_SETS = {
+    # what each collaborator does with what it is handed, besides answering like the inert one
+    "all": {"sink": "mutator", "roles": True, "oblig": True, "rel": True, "metrics": True},
+    "declogger": {"sink": "declogger", "roles": True, "oblig": False, "rel": False, "metrics": False},
+    "declogger_default": {"sink": "declogger_default", "roles": False, "oblig": False, "rel": True, "metrics": True},
+    "nosink": {"sink": None, "roles": True, "oblig": True, "rel": True, "metrics": True},
+    "sink_only": {"sink": "mutator", "roles": False, "oblig": False, "rel": False, "metrics": False},
+}
+
+
+def hostile_case(name, pol, reqs, collab, hset, level="top"):
+    h = dict(HOSTILE_SETS[hset], level=level)
+    if level == "top" and collab.get("cache"):
+        # with a decision cache the raw decision handed to the obligation checker is the cached object itself
+        # (DefaultInMemoryCache stores values as they are): editing its top-level keys is then editing the cache
+        h["oblig"] = False
+    return {"kind": "hostile", "name": f"{name}|{hset}|{level}", "policy": pol, "requests": reqs, "collab": collab,
+            "hostile": h}
+
+
+def hostile_cases(chk):
+    """collaborators that edit in place what the engine hands them (log payload and its env, role list, raw
+    decision, relationship context, metric labels)."""
+    P = policies()
+    reqs = requests_pool()
+    rng = chk.rng
+    cases = []
+    sets = list(HOSTILE_SETS)
+    for pi, (name, pol) in enumerate(P.items()):
+        if chk.tier == "quick":
+            cases.append(hostile_case(name, pol, reqs, COLLABS[0], "all"))
+            cases.append(hostile_case(name, pol, reqs, COLLABS[1], "declogger"))
+            extra = sets[2 + pi % 3]
+            cases.append(hostile_case(name, pol, rng.sample(reqs, 3), COLLABS[pi % 3], extra))
+        else:
+            for ci, collab in enumerate(COLLABS):
+                for hset in sets:
+                    cases.append(hostile_case(name, pol, reqs, collab, hset))
+    names = [n for n in P if "policies" not in P[n]]
+    for i in range(6 if chk.tier == "quick" else 80):
+        rules = []
+        for n in rng.sample(names, rng.randint(1, 3)):
+            rules.extend(copy.deepcopy(P[n]["rules"]))
+        rng.shuffle(rules)
+        for j, r in enumerate(rules):
+            r["id"] = f"{r['id']}_{j}"
+        pol = {"algorithm": rng.choice(["deny-overrides", "permit-overrides", "first-applicable"]), "rules": rules}
+        if rng.random() < 0.4:
+            pol = {"algorithm": rng.choice(["deny-overrides", "permit-overrides", "first-applicable"]),
+                   "policies": [{"id": "P0", **pol}, {"id": "P1", **copy.deepcopy(P[rng.choice(names)])}]}
+        collab = {"roles": rng.random() < 0.7, "rel": rng.choice(["A", "B", None]), "oblig": rng.choice(["basic", "custom"]),
+                  "strict": rng.random() < 0.3, "cache": rng.random() < 0.5}
+        cases.append(hostile_case(f"random{i}", pol, copy.deepcopy(rng.sample(reqs, 3)), collab, rng.choice(sets)))
+    # level "nested": the same collaborators editing only what lies INSIDE the attribute values / obligation objects
+    NP = {
+        "nested_cond": {"algorithm": "deny-overrides", "rules": [
+            rule("p1", "permit", cond={"and": [{"endsWith": [A("subject.attrs.profile.email"), "@corp.example"]},
+                                               {"startsWith": [A("context.headers.authorization"), "Bearer "]}]}),
+            rule("p2", "permit", cond={"contains": [A("subject.attrs.tags"), "x"]})]},
+        "nested_rel": {"algorithm": "deny-overrides", "rules": [
+            rule("p1", "permit", cond={"rel": {"relation": "owner", "ctx": {"scope": {"kind": "doc"}}}})]},
+        "nested_oblig": {"algorithm": "deny-overrides", "rules": [
+            rule("p1", "permit", obligations=[{"type": "require_level", "attrs": {"min": 2}},
+                                              {"type": "require_mfa", "on": "permit"}])]},
+    }
+    nreqs = nested_requests()
+    for name, pol in NP.items():
+        for hset in ("all", "declogger", "declogger_default"):
+            for collab in COLLABS[:1] if chk.tier == "quick" else COLLABS[:2]:
+                cases.append(hostile_case(name, pol, nreqs, collab, hset, level="nested"))
+    return cases
+
+
 def gather_cases(chk):
     P = policies()
     reqs = requests_pool()
